@@ -35,11 +35,13 @@ TYPE zrec
 END TYPE
 DIM SHARED zarr(1 TO 3) AS INTEGER
 DIM SHARED zr AS zrec
+CONST zkc$ = "k"
 '''
 POSTLUDE = '''SUB zsubp (n%)
   n% = n% + 1
 END SUB
 FUNCTION zfn% (a%)
+  zt$ = zkc$ + zkc$
   zfn% = a%
 END FUNCTION
 '''
@@ -100,6 +102,12 @@ FAULTS = {
     'case-range-mismatch': ['SELECT CASE zx%', 'CASE 1 TO "z"', 'END SELECT'],
     'for-string-bound': ['FOR zq% = 1 TO "a"', 'NEXT zq%'],
     'arg-mismatch': ['zsubp "a"'],
+    # a constant that is used again, validly, further down (its uses must not share one position)
+    'const-arg-mismatch': ['zx% = zfn%(zkc$)'],
+    'const-case-mismatch': ['SELECT CASE zx%', 'CASE zkc$', 'END SELECT'],
+    'const-cond-string': ['IF zkc$ THEN', 'END IF'],
+    'next-other-suffix': ['FOR zq% = 1 TO 2', 'NEXT zq&'],
+    'next-other-var': ['FOR zq% = 1 TO 2', 'NEXT zother%'],
     'arg-mismatch-fn': ['zx% = zfn%("a")'],
     'subscript-string': ['zarr("a") = 1'],
     'undef-label': ['GOTO znolabel'],
@@ -141,7 +149,8 @@ FAULTS = {
     'none': ['zx% = zx%'],
 }
 # first and last line (0-based within the injected lines) a diagnostic may point at under the "pair" rule
-PAIR = {'cond-string-if': (0, 0), 'cond-string-while': (0, 0), 'cond-string-until': (1, 1), 'cond-string-elseif': (1, 1),
+PAIR = {'const-case-mismatch': (1, 1), 'const-cond-string': (0, 0), 'next-other-suffix': (0, 1), 'next-other-var': (0, 1),
+        'cond-string-if': (0, 0), 'cond-string-while': (0, 0), 'cond-string-until': (1, 1), 'cond-string-elseif': (1, 1),
         'case-mismatch': (1, 1), 'case-range-mismatch': (1, 1), 'for-string-bound': (0, 0)}
 
 FAULT_RULE_SPAN = {f: True for f in ('second-else', 'stray-endif', 'stray-next', 'stray-wend', 'stray-loop', 'stray-endselect', 'unclosed-for',
